@@ -1,5 +1,11 @@
-"""Extra stage families for C06 (sources, throttling) — filled in as their models are built."""
+"""Extra stage families for C06 (sources, throttling): each optional module contributes scripts + a direct oracle."""
+import importlib
 
 
 def run_extra(ctx):
-    return
+    for name in ("C06_sources", "C06_throttle"):
+        try:
+            mod = importlib.import_module("checks." + name)
+        except ModuleNotFoundError:
+            continue
+        mod.run_extra(ctx)
